@@ -154,6 +154,45 @@ func instrument(path string, fc FileCfg) ([]byte, error) {
 	if rw.usedVrt {
 		astutil.AddNamedImport(fset, f, "zzvrt", modPath+"vrt")
 	}
+	// imports that a call replacement left unused (only the packages named in the replaced calls)
+	for key := range fc.Calls {
+		parts := strings.Split(key, ".")
+		if len(parts) != 2 {
+			continue
+		}
+		pkg := parts[0]
+		used := false
+		ast.Inspect(f, func(n ast.Node) bool {
+			if se, ok := n.(*ast.SelectorExpr); ok {
+				if id, ok := se.X.(*ast.Ident); ok && id.Name == pkg && id.Obj == nil {
+					used = true
+				}
+			}
+			return !used
+		})
+		if used {
+			continue
+		}
+		for _, imp := range f.Imports {
+			ip, _ := strconv.Unquote(imp.Path.Value)
+			match := imp.Name != nil && imp.Name.Name == pkg
+			if imp.Name == nil {
+				el := strings.Split(ip, "/")
+				last := el[len(el)-1]
+				if len(el) > 1 && len(last) >= 2 && last[0] == 'v' && last[1] >= '0' && last[1] <= '9' {
+					last = el[len(el)-2]
+				}
+				match = last == pkg
+			}
+			if match {
+				if imp.Name != nil {
+					astutil.DeleteNamedImport(fset, f, imp.Name.Name, ip)
+				} else {
+					astutil.DeleteImport(fset, f, ip)
+				}
+			}
+		}
+	}
 	// drop comments positions trouble: print via format.Node
 	var buf bytes.Buffer
 	f.Comments = nil // comments attached to moved nodes confuse the printer; none are needed
